@@ -28,6 +28,7 @@ CHECKS = {
     "C08": (MC, "symx", B_TECH, B_NOTE, "The real predicates (is_smooth, is_decomposable, is_structured_decomposable, are_compatible) run on circuits whose leaf variable ids are symbolic; every path is explored and z3 decides per path: answer == set-theoretic definition (iff for smooth/decomposable, => for structured/compatible), invariance under product-input permutation, variable renumbering and argument swap."),
     "C09": (MC, "symx", B_TECH, B_NOTE, "The real operators run with symbolic leaf ids, symbolic integration/observation sets and symbolic order; per path z3 decides: returned => preconditions hold, StructuralPropertyError => structure invalid, ValueError => argument invalid; on return: result smooth/decomposable, documented scope and number of outputs, SD preserved and compatible with operands (multiply), flags preserved (conjugate); query constructors likewise."),
     "C10": (TV, "shadow", A_TECH + "; aliasing audit on the real modules across a real update history", A_NOTE, "Operands and derived circuit are compiled in one context; solver variables are written ONLY into the operand's tensors (locations snapshotted before the derived circuit is compiled) = state after an arbitrary history of in-place updates; both are executed symbolically under one shadow memory and z3 decides derived == operator definition applied to the operand and operand == its semantics; object identity of every learnable tensor of the derived circuit with an operand tensor and registry stability are audited after compile and after each step of a real history (reset, SGD step through the derived circuit, load_state_dict, reset of the derived circuit)."),
+    "C13": (TV, "shadow", "symbolic execution of the autograd BACKWARD pass of the real compiled circuit under the ATen-dispatch shadow engine + z3 QF_NRA identity per gradient entry against the exact symbolic derivative of the reference semantics", A_NOTE + "; MAX#k shifts are free symbols whose gradient contribution must cancel; divisions introduced by the backward are by intermediate circuit values assumed non-zero", "out[o,k].backward() of each compiled circuit runs under the shadow engine (index_put accumulate, softmax / amax backward, SafeLog / ComplexSafeLog backward, complex views); the gradient slice of every symbolic tensor parameter (through the registry, so mapped back from folded tensors) and of continuous inputs is decided equal to d ref / d theta (resp. (d ref / d theta) / ref in log space) for all parameter values; all flag pairs are compared with the same derivative, hence flag independence; requires_grad follows 'learnable'."),
     "C15": (TV, "shadow", "symbolic execution of SamplingQuery under the ATen-dispatch shadow engine with aten.multinomial stubbed by fresh draw symbols carrying the probability row passed by the real code; exact output distribution by conditioning on the draws; z3 QF_NRA identity per assignment", A_NOTE, "The sampler runs symbolically; the exact distribution of every returned row (a polynomial in the circuit parameters, computed by conditioning the returned term on the draw symbols) is decided equal to the circuit's reference probability for EVERY complete assignment and all parameter values (covers support and column filling); rows of one call depend on disjoint draws; all flag pairs, sums of arity 1-3, Hadamard / Kronecker / CP-T layers, structural zeros."),
     "C16": (MC, "symx", B_TECH, B_NOTE + "; the construction algorithms themselves run on concrete arguments (their outputs are the skeletons)", "The real RegionGraph constructor, is_structured_decomposable and build_circuit (cp, cp-t, tucker, explicit factories) run on symbolic scopes over hand-written skeletons (incl. malformed ones) and over the outputs of every construction algorithm (RandomBinaryTree, LinearTree, FullyFactorized, QuadTree, QuadGraph, PoonDomingos, ChowLiuTree, tree2rg) on bounded arguments; per path z3 decides: rejected iff malformed, SD flag iff partitions structured, circuit smooth / decomposable / same scope / one output per root with num_classes units / SD when the flag is; algorithm outputs additionally cover the requested variables and survive dump/load."),
     "C17": (TV, "shadow", "symbolic execution of compilation / reset_parameters under the ATen-dispatch shadow engine with the random sources replaced by contract stubs (fresh tagged symbols) + z3 for the simplex / bound obligations", "bounded parameter sets (see evidence); the stubs carry call arguments and contracts only, no distributional claim", "Compilation and two poisoned resets run symbolically with aten.normal_/uniform_/_sample_dirichlet stubbed by fresh symbols tagged with their call arguments; per symbolic parameter slice: constants/arrays equal the initialiser value, uniform/normal entries are fresh draws of the parameter's own initialiser (z3: a <= u <= b), Dirichlet entries sum to one along the DECLARED axis (z3, from the stub's last-axis simplex contract) with the right concentration per position; dtype and requires_grad follow the symbolic parameter; all flag pairs."),
